@@ -291,9 +291,16 @@ def run1(case):
         handled = {i: [] for i in real}
         for i, b in real.items():
             def wrap(i=i, b=b, orig=b.event):
+                depth = [0]
+
                 def event(etype, /, **data):
-                    r = orig(etype, **data)
-                    handled[i].append((loop.time(), state_of(b)))
+                    depth[0] += 1
+                    try:
+                        r = orig(etype, **data)
+                    finally:
+                        depth[0] -= 1
+                    if depth[0] == 0:       # only completed outermost events count
+                        handled[i].append((loop.time(), state_of(b)))
                     return r
                 return event
             b.event = wrap()
